@@ -333,6 +333,34 @@ Qed.
 Lemma py_int_isdigit_nonneg s v : py_isdigit s = true -> py_int s = Ok v -> 0 <= v.
 Proof. intros H1 H2. eapply py_int_nonneg; eauto. apply py_isdigit_no_minus; auto. Qed.
 
+Lemma py_decimal_ascii c : is_digit c = true -> is_dec c = true.
+Proof.
+  intros H. apply is_digit_range in H as [H1 H2].
+  unfold is_dec, py_decimal, decimal_zeros. rewrite decimal_in_hd; auto.
+  apply andb_true_iff; split; apply N.leb_le; lia.
+Qed.
+
+Lemma py_isdecimal_dec_of_N n : py_isdecimal (dec_of_N n) = true.
+Proof.
+  pose proof (dec_of_N_nonnil n) as Hne. pose proof (dec_of_N_digits n) as H.
+  destruct (dec_of_N n) as [|c s]; [congruence|]. unfold py_isdecimal.
+  apply forallb_true_iff. apply forallb_true_iff in H.
+  eapply Forall_impl; [|exact H]. intros a. apply py_decimal_ascii.
+Qed.
+
+Lemma is_dec_isdigit_char c : is_dec c = true -> py_isdigit_char c = true.
+Proof. unfold is_dec, py_isdigit_char. destruct (py_decimal c); [auto|discriminate]. Qed.
+
+Lemma py_isdecimal_isdigit s : py_isdecimal s = true -> py_isdigit s = true /\ forallb is_dec s = true.
+Proof.
+  destruct s as [|c s]; [discriminate|]. unfold py_isdecimal, py_isdigit. intros H. split; auto.
+  apply forallb_true_iff. apply forallb_true_iff in H.
+  eapply Forall_impl; [|exact H]. intros a. apply is_dec_isdigit_char.
+Qed.
+
+Lemma py_int_isdecimal_nonneg s v : py_isdecimal s = true -> py_int s = Ok v -> 0 <= v.
+Proof. intros H. apply py_int_isdigit_nonneg. apply py_isdecimal_isdigit; auto. Qed.
+
 Lemma parse_unsigned_err l e : parse_unsigned l = Err e -> e = ValueErr.
 Proof.
   unfold parse_unsigned. destruct l as [|t l]; [congruence|].
@@ -357,15 +385,15 @@ Qed.
 Lemma num_ids_app a b : num_ids (a ++ b) = num_ids a ++ num_ids b.
 Proof.
   induction a as [|s a IH]; simpl; auto.
-  destruct (py_isdigit s); auto. destruct (py_int s); simpl; congruence.
+  destruct (py_isdecimal s); auto. destruct (py_int s); simpl; congruence.
 Qed.
 
 Lemma num_ids_In v ids :
-  In v (num_ids ids) <-> exists s, In s ids /\ py_isdigit s = true /\ py_int s = Ok v.
+  In v (num_ids ids) <-> exists s, In s ids /\ py_isdecimal s = true /\ py_int s = Ok v.
 Proof.
   induction ids as [|s ids IH]; simpl.
   - split; [tauto|]. intros [s [[] _]].
-  - destruct (py_isdigit s) eqn:Ed.
+  - destruct (py_isdecimal s) eqn:Ed.
     + destruct (py_int s) as [w|e] eqn:Ei.
       * simpl. rewrite IH. split.
         -- intros [->|[s' [H1 H2]]]; [exists s; auto|exists s'; tauto].
@@ -380,20 +408,20 @@ Qed.
 
 Lemma num_ids_nonneg ids v : In v (num_ids ids) -> 0 <= v.
 Proof.
-  rewrite num_ids_In. intros [s [_ [H1 H2]]]. eapply py_int_isdigit_nonneg; eauto.
+  rewrite num_ids_In. intros [s [_ [H1 H2]]]. eapply py_int_isdecimal_nonneg; eauto.
 Qed.
 
 (** the list comprehension either succeeds with exactly [num_ids], or raises ValueError
     because of one identified string *)
 Lemma used_ids_cases ids :
   (used_ids ids = Ok (num_ids ids) /\
-   forall s, In s ids -> py_isdigit s = true -> exists v, py_int s = Ok v)
+   forall s, In s ids -> py_isdecimal s = true -> exists v, py_int s = Ok v)
   \/ (used_ids ids = Err ValueErr /\
-      exists s, In s ids /\ py_isdigit s = true /\ py_int s = Err ValueErr).
+      exists s, In s ids /\ py_isdecimal s = true /\ py_int s = Err ValueErr).
 Proof.
   unfold used_ids. induction ids as [|s ids IH]; simpl.
   - left; split; auto. intros s [].
-  - destruct (py_isdigit s) eqn:Ed; simpl.
+  - destruct (py_isdecimal s) eqn:Ed; simpl.
     + destruct (py_int s) as [w|e] eqn:Ei; simpl.
       * destruct IH as [[H1 H2]|[H1 [s' [Ha [Hb Hc]]]]].
         -- left. rewrite H1; simpl. split; auto.
@@ -422,13 +450,13 @@ Proof. destruct r; try lia. reflexivity. Qed.
 
 (** a numeral already present as an id string is seen by the allocators *)
 Lemma numeral_seen ids r : 0 < r -> In (show_Z r) ids ->
-  (forall s, In s ids -> py_isdigit s = true -> exists v, py_int s = Ok v) ->
+  (forall s, In s ids -> py_isdecimal s = true -> exists v, py_int s = Ok v) ->
   In r (num_ids ids).
 Proof.
   intros Hr Hin Hall. rewrite show_Z_pos in Hin by auto.
   apply num_ids_In. exists (dec_of_N (Z.to_N r)). split; auto.
-  split; [apply py_isdigit_dec_of_N|].
-  destruct (Hall _ Hin (py_isdigit_dec_of_N _)) as [v Hv].
+  split; [apply py_isdecimal_dec_of_N|].
+  destruct (Hall _ Hin (py_isdecimal_dec_of_N _)) as [v Hv].
   rewrite Hv. f_equal. apply py_int_dec_of_N in Hv. lia.
 Qed.
 
@@ -457,7 +485,7 @@ Qed.
 (** the exact condition under which the scan raises, and the only exception it raises *)
 Theorem shape_alloc_raises_iff ids :
   (exists e, next_shape_id_max ids = Err e) <->
-  exists s, In s ids /\ py_isdigit s = true /\ py_int s = Err ValueErr.
+  exists s, In s ids /\ py_isdecimal s = true /\ py_int s = Err ValueErr.
 Proof.
   unfold next_shape_id_max, max_shape_id.
   destruct (used_ids_cases ids) as [[H1 H2]|[H1 H3]]; rewrite H1; simpl.
@@ -565,7 +593,7 @@ Qed.
 
 Lemma num_ids_numeral n : 0 < n -> num_ids [show_Z n] = [n] \/ num_ids [show_Z n] = [].
 Proof.
-  intros Hn. rewrite show_Z_pos by auto. simpl. rewrite py_isdigit_dec_of_N.
+  intros Hn. rewrite show_Z_pos by auto. simpl. rewrite py_isdecimal_dec_of_N.
   destruct (py_int (dec_of_N (Z.to_N n))) as [v|e] eqn:E; auto.
   apply py_int_dec_of_N in E. left. f_equal. lia.
 Qed.
@@ -1582,8 +1610,6 @@ Proof.
   apply in_seq. lia.
 Qed.
 
-Definition is_dec (c : N) : bool := match py_decimal c with Some _ => true | None => false end.
-
 Definition tok_ok (c : N) : bool :=
   match py_decimal c with
   | Some d => match tok_of c with TDigit d' => N.eqb d d' | _ => false end
@@ -1687,9 +1713,44 @@ Theorem image_idx_both names :
    forall k, 1 <= k < next_image_idx names -> In k (image_idxs names)).
 Proof. split; [exact (image_idx_fresh names)|exact (image_idx_first_free names)]. Qed.
 
-Theorem shape_nondecimal_crash :
-  next_shape_id_max [[49%N]; [178%N]] = Err ValueErr /\
-  next_shape_id_gap [[49%N]; [178%N]] = Err ValueErr.
+(** ** after the repair (isdecimal filter): the scan cannot fail on a digit-like character *)
+Theorem isdecimal_int_fails_iff s : py_isdecimal s = true ->
+  (py_int s = Err ValueErr <-> (max_str_digits < N.of_nat (length s))%N).
+Proof.
+  intros H. destruct (py_isdecimal_isdigit s H) as [H1 H2].
+  rewrite (isdigit_int_fails_iff s H1). rewrite H2. split; [intros [Hc|Hc]; [discriminate|auto]|auto].
+Qed.
+
+Theorem shape_alloc_raises_len_iff ids :
+  (exists e, next_shape_id_max ids = Err e) <->
+  exists s, In s ids /\ py_isdecimal s = true /\ (max_str_digits < N.of_nat (length s))%N.
+Proof.
+  rewrite shape_alloc_raises_iff. split; intros [s [H1 [H2 H3]]]; exists s; split; auto; split; auto;
+    apply (isdecimal_int_fails_iff s H2); auto.
+Qed.
+
+Theorem shape_alloc_total ids :
+  (forall s, In s ids -> (N.of_nat (length s) <= max_str_digits)%N) ->
+  (exists r, next_shape_id_max ids = Ok r) /\ (exists g, next_shape_id_gap ids = Ok g).
+Proof.
+  intros Hlen.
+  assert (Hok : forall s, In s ids -> py_isdecimal s = true -> exists v, py_int s = Ok v).
+  { intros s Hs Hd. destruct (py_int s) as [v|e] eqn:E; eauto.
+    pose proof (py_int_err _ _ E); subst. apply (isdecimal_int_fails_iff s Hd) in E.
+    specialize (Hlen s Hs). lia. }
+  assert (Hu : used_ids ids = Ok (num_ids ids)).
+  { destruct (used_ids_cases ids) as [[H1 _]|[_ [s [Ha [Hb Hc]]]]]; auto.
+    destruct (Hok s Ha Hb) as [v Hv]. congruence. }
+  split.
+  - unfold next_shape_id_max, max_shape_id. rewrite Hu. cbn [bind]. eauto.
+  - destruct (shape_gap_fresh ids) as [Hn _]. unfold next_shape_id_gap in *. rewrite Hu in *. cbn [bind] in *.
+    destruct (first_gap _ _ _); [eauto|congruence].
+Qed.
+
+(** regression: the witness of the repaired defect (an @id of SUPERSCRIPT TWO) *)
+Theorem shape_nondecimal_regression :
+  next_shape_id_max [[49%N]; [178%N]] = Ok 2 /\
+  next_shape_id_gap [[49%N]; [178%N]] = Ok 2.
 Proof. split; vm_compute; reflexivity. Qed.
 
 (* ============================================================================== *)
@@ -1780,4 +1841,53 @@ Proof.
   - intros H. pose proof (next_slide_id_Z_err _ _ H); subst. right. split; auto. exists vals; auto.
   - intros H; inversion H; subst e'. apply mapM_err in Em as [s [Hs He]].
     pose proof (py_int_err _ _ He); subst. left. split; auto. exists s; auto.
+Qed.
+
+(* ============================================================================== *)
+(** * Placeholder names *)
+
+Lemma ph_name_inj base a b : ph_name base a = ph_name base b -> a = b.
+Proof.
+  unfold ph_name. intros H. apply app_inv_head in H. apply app_inv_head in H.
+  apply dec_of_N_inj; auto.
+Qed.
+
+Lemma ph_name_search_spec fuel : forall base n names,
+  match ph_name_search fuel base n names with
+  | Some r => ~ In r names /\ exists k, (n <= k < n + N.of_nat fuel)%N /\ r = ph_name base k /\
+                                        forall j, (n <= j < k)%N -> In (ph_name base j) names
+  | None => forall j, (n <= j < n + N.of_nat fuel)%N -> In (ph_name base j) names
+  end.
+Proof.
+  induction fuel as [|f IH]; intros base n names.
+  - simpl. intros j Hj; lia.
+  - cbn [ph_name_search]. destruct (mem_str (ph_name base n) names) eqn:E.
+    + apply mem_str_In in E. specialize (IH base (n + 1)%N names).
+      destruct (ph_name_search f base (n + 1) names) as [r|].
+      * destruct IH as [H1 [k [H2 [H3 H4]]]]. split; auto. exists k. split; [lia|]. split; auto.
+        intros j Hj. destruct (N.eq_dec j n) as [->|Hne]; auto. apply H4; lia.
+      * intros j Hj. destruct (N.eq_dec j n) as [->|Hne]; auto. apply IH; lia.
+    + split.
+      * intros Hin. apply mem_str_In in Hin. congruence.
+      * exists n. split; [lia|]. split; auto. intros j Hj; lia.
+Qed.
+
+(** the while-True loop terminates within len(names)+1 iterations and its result is a
+    name not yet used in the part: the first free number from id-1 upwards *)
+Theorem ph_name_fresh base n names :
+  exists r, next_ph_name base n names = Some r /\ ~ In r names /\
+    exists k, (n <= k)%N /\ r = ph_name base k /\ forall j, (n <= j < k)%N -> In (ph_name base j) names.
+Proof.
+  unfold next_ph_name. pose proof (ph_name_search_spec (S (length names)) base n names) as H.
+  destruct (ph_name_search (S (length names)) base n names) as [r|].
+  - destruct H as [H1 [k [H2 [H3 H4]]]]. exists r. split; auto. split; auto. exists k. split; [lia|auto].
+  - exfalso.
+    set (l := map (fun i => ph_name base (n + N.of_nat i)%N) (seq 0 (S (length names)))).
+    assert (Hnd : NoDup l).
+    { apply NoDup_map_inj; [|apply seq_NoDup].
+      intros a b Hab. apply ph_name_inj in Hab. lia. }
+    assert (Hincl : incl l names).
+    { intros x Hx. apply in_map_iff in Hx as [i [<- Hi]]. apply in_seq in Hi. apply H. lia. }
+    pose proof (NoDup_incl_length Hnd Hincl) as Hl. unfold l in Hl.
+    rewrite map_length, seq_length in Hl. lia.
 Qed.
